@@ -1229,6 +1229,8 @@ var targets = []*target{
 	{name: "DecryptKeyed", fn: targetDecryptKeyed, run: runDecryptKeyed, grammar: "keyed", fuzzExecs: execsDecrypt, quickN: 20000},
 	// driven by a scripted plugin process per input: no native fuzz target
 	{name: "PluginReplies", fn: targetPluginReplies, run: runPluginReplies, grammar: "plug", fuzzExecs: 0, quickN: 400},
+	// legitimately expensive passphrase files: built by the parent, one child per case
+	{name: "ExpensiveScrypt", fn: targetExpensiveScrypt, run: runExpensiveScrypt, grammar: "wf", fuzzExecs: 0, quickN: 0},
 	// scaling in the NUMBER of stanzas: its own enumerated job, no mutations, no fuzzing
 	{name: "ManyStanzas", fn: targetManyStanzas, run: runManyStanzas, grammar: "scale", fuzzExecs: 0, quickN: 0},
 	{name: "UnwrapStanzas", fn: targetUnwrapStanzas, run: runUnwrapStanzas, grammar: "stanzas", fuzzExecs: execsMedium, quickN: 20000},
